@@ -363,16 +363,24 @@ def jaxtyped(fn=_sentinel, *, typechecker=_sentinel):
                 try:
                     return fn(*args, **kwargs)
                 except Exception as e:
-                    # add_note api is support from python 3.11+
-                    if sys.version_info >= (3, 11) and _no_jaxtyping_note(e):
-                        shape_info = shape_str(memos)
-                        if shape_info != "":
-                            msg = (
-                                "The preceding error occurred within the scope of a "
-                                "`jaxtyping.jaxtyped` function, and may be due to a "
-                                "typecheck error. "
-                            )
-                            e.add_note(_jaxtyping_note_str(_spacer + msg + shape_info))
+                    # Adding the note is best-effort: it must never replace the
+                    # exception raised by `fn` (e.g. `add_note` fails on an exception
+                    # class that forbids setting attributes).
+                    try:
+                        # add_note api is support from python 3.11+
+                        if sys.version_info >= (3, 11) and _no_jaxtyping_note(e):
+                            shape_info = shape_str(memos)
+                            if shape_info != "":
+                                msg = (
+                                    "The preceding error occurred within the scope of "
+                                    "a `jaxtyping.jaxtyped` function, and may be due "
+                                    "to a typecheck error. "
+                                )
+                                e.add_note(
+                                    _jaxtyping_note_str(_spacer + msg + shape_info)
+                                )
+                    except Exception:
+                        pass
                     raise
                 finally:
                     pop_shape_memo()
